@@ -20,7 +20,53 @@ structure Placed where
   place : Place
   isNew : Bool        -- placed by this pass (as opposed to already running)
 
-def selMatches (sel : Labels) (p : Pod) : Bool := sel.all (fun (k, v) => p.labels.lookup k == some v)
+/-! ### Which pods a term / constraint selects
+
+Kubernetes label-selector semantics (`metav1.LabelSelector`): every `matchLabels` pair and every `matchExpressions`
+requirement must hold (In / NotIn / Exists / DoesNotExist on the pod's or namespace's labels; an empty selector selects
+everything).  `matchLabelKeys`: for every listed key that the pod CARRYING the term / constraint has as a label, `key In
+[that pod's value]` is ANDed into the selector (the kube-scheduler does this for spread constraints, the API server for
+(anti-)affinity terms; either way the constraint is about the pods of the carrier's own revision).  Repeating an expression
+does not change what a selector selects. -/
+
+def selOK (ml : Labels) (es : List KExpr) (ls : Labels) : Bool :=
+  ml.all (fun (k, v) => ls.lookup k == some v) && es.all (fun e => k8sMatch e.op e.vals (ls.lookup e.key))
+
+/-- the expressions `matchLabelKeys` contribute for the pod `owner` that carries the term / constraint -/
+def keyExprs (owner : Pod) (keys : List String) : List KExpr :=
+  keys.filterMap (fun k => (owner.labels.lookup k).map (fun v => ({ key := k, op := .in_, vals := [v] } : KExpr)))
+
+/-- the namespaces a pod (anti-)affinity term of pod `owner` applies to: the listed namespaces together with those the
+    namespace selector matches (an EMPTY selector matches every namespace); the owner's own namespace exactly when neither
+    is given -/
+def termNamespaces (s : Scenario) (owner : Pod) (t : PodAff) : List String :=
+  if t.namespaces.isEmpty && t.namespaceSelector.isNone then [owner.ns]
+  else t.namespaces ++ (match t.namespaceSelector with
+    | none => []
+    | some sel => (s.allNamespaces.filter (fun (_, ls) => selOK sel.matchLabels sel.matchExprs ls)).map (·.1))
+
+/-- does the term `t` carried by pod `owner` select pod `q`? -/
+def termMatches (s : Scenario) (owner : Pod) (t : PodAff) (q : Pod) : Bool :=
+  (termNamespaces s owner t).contains q.ns &&
+  selOK t.matchLabels (t.matchExprs ++ keyExprs owner t.matchLabelKeys) q.labels
+
+/-- does the spread constraint `c` carried by pod `owner` count pod `q`?  (only pods of the owner's namespace count) -/
+def spreadMatches (owner : Pod) (c : Spread) (q : Pod) : Bool :=
+  q.ns == owner.ns && selOK c.matchLabels (c.matchExprs ++ keyExprs owner c.matchLabelKeys) q.labels
+
+def sortStrings (l : List String) : List String := (l.toArray.qsort (· < ·)).toList
+
+/-- canonical form of a selector (as a set of requirements), to compare two selectors for "the same constraint" -/
+def selKey (ml : Labels) (es : List KExpr) : List String :=
+  let fromLabels : List String := ml.map (fun (kv : String × String) => s!"{kv.1}={kv.2}")
+  let fromExprs : List String := es.map (fun (e : KExpr) => s!"{e.key} {repr e.op} {sortStrings e.vals}")
+  sortStrings (fromLabels ++ fromExprs).eraseDups
+
+def termKey (s : Scenario) (owner : Pod) (t : PodAff) : List String × List String :=
+  (selKey t.matchLabels (t.matchExprs ++ keyExprs owner t.matchLabelKeys), sortStrings (termNamespaces s owner t).eraseDups)
+
+def spreadKey (owner : Pod) (c : Spread) : List String × String :=
+  (selKey c.matchLabels (c.matchExprs ++ keyExprs owner c.matchLabelKeys), owner.ns)
 
 /-- every pod with a location after the pass: running pods on their nodes (unless rescheduled) and new placements -/
 def placements (s : Scenario) (out : Outcome) : List Placed :=
@@ -72,7 +118,7 @@ def antiAffinityOK (s : Scenario) (all : List Placed) : Option String :=
   firstSome (all.map (fun a =>
     firstSome ((a.pod.affinity.filter (fun t => t.anti && t.required)).map (fun t =>
       match all.find? (fun b => b.pod.name != a.pod.name && (a.isNew || b.isNew) &&
-            selMatches t.matchLabels b.pod && shareDomain s a b t.topologyKey) with
+            termMatches s a.pod t b.pod && shareDomain s a b t.topologyKey) with
       | some b => some s!"anti-affinity: {a.pod.name} (term on {t.topologyKey}) may share a domain with {b.pod.name}"
       | none => none))))
 
@@ -110,7 +156,7 @@ def canUseDomainOf (s : Scenario) (p : Pod) (q : Placed) (k : String) : Bool :=
     (a pod on the same node / NodeClaim, or one whose domain is determined and equal) -/
 def certainMatch (s : Scenario) (all : List Placed) (a : Placed) (t : PodAff) : Bool :=
   let k := t.topologyKey
-  let others := all.filter (fun b => b.pod.name != a.pod.name && selMatches t.matchLabels b.pod)
+  let others := all.filter (fun b => b.pod.name != a.pod.name && termMatches s a.pod t b.pod)
   let doms := domains s a k
   !doms.isEmpty && doms.all (fun d => others.any (fun b => samePlace a b || domains s b k == [d]))
 
@@ -124,10 +170,10 @@ def affinityOK (s : Scenario) (all : List Placed) : Option String :=
       let k := t.topologyKey
       if certainMatch s all a t then none else
       if (domains s a k).isEmpty then some s!"affinity: {a.pod.name} is on a node without label {k}" else
-      if !selMatches t.matchLabels a.pod then
+      if !termMatches s a.pod t a.pod then
         some s!"affinity: {a.pod.name} (term on {k}) is not for certain in a domain with a matching pod"
       else
-      let others := all.filter (fun b => b.pod.name != a.pod.name && selMatches t.matchLabels b.pod)
+      let others := all.filter (fun b => b.pod.name != a.pod.name && termMatches s a.pod t b.pod)
       match others.find? (fun b => !b.isNew && canUseDomainOf s a.pod b k) with
       | some b =>
         -- CLASSIFIES (never excuses): the pod has several OR-ed required node-affinity terms and under at least one of them
@@ -138,8 +184,9 @@ def affinityOK (s : Scenario) (all : List Placed) : Option String :=
         let tag := if orTerms then "affinity-or-terms" else "affinity"
         some s!"{tag}: {a.pod.name} (term on {k}) started a new domain although {b.pod.name} was running in a domain it can use"
       | none =>
-        let sameTerm (b : Placed) : Bool := b.pod.affinity.any (fun t' => !t'.anti && t'.required && t'.topologyKey == k && t'.matchLabels == t.matchLabels)
-        match all.find? (fun b => b.isNew && b.pod.name != a.pod.name && sameTerm b && selMatches t.matchLabels b.pod &&
+        let sameTerm (b : Placed) : Bool := b.pod.affinity.any (fun t' => !t'.anti && t'.required && t'.topologyKey == k &&
+          termKey s b.pod t' == termKey s a.pod t)
+        match all.find? (fun b => b.isNew && b.pod.name != a.pod.name && sameTerm b && termMatches s a.pod t b.pod &&
             !certainMatch s all b t) with
         | some b => some s!"affinity: {a.pod.name} and {b.pod.name} (same self-selecting term on {k}) each started their own domain: {domains s a k} / {domains s b k}"
         | none => none))))
@@ -191,10 +238,11 @@ def eligibleDomains (s : Scenario) (all : List Placed) (p : Pod) (k : String) (h
   (fromNodes ++ fromClaims).eraseDups
 
 /-- "among the pods that carry it": a pod counts for a constraint if the constraint's selector matches it AND it carries
-    the same DoNotSchedule constraint (same topology key and selector) itself -/
-def carries (b : Placed) (c : Spread) : Bool :=
-  selMatches c.matchLabels b.pod &&
-  b.pod.spreads.any (fun c' => c'.doNotSchedule && c'.topologyKey == c.topologyKey && c'.matchLabels == c.matchLabels &&
+    the same DoNotSchedule constraint (same topology key and the same effective selector, i.e. after `matchLabelKeys`
+    contributed each carrier's own values: pods of another revision carry ANOTHER constraint) itself -/
+def carries (owner : Pod) (b : Placed) (c : Spread) : Bool :=
+  spreadMatches owner c b.pod &&
+  b.pod.spreads.any (fun c' => c'.doNotSchedule && c'.topologyKey == c.topologyKey && spreadKey b.pod c' == spreadKey owner c &&
     c'.maxSkew == c.maxSkew && c'.minDomains == c.minDomains && c'.nodeAffinityHonor == c.nodeAffinityHonor &&
     c'.nodeTaintsHonor == c.nodeTaintsHonor)
 
@@ -204,8 +252,8 @@ def spreadOK (s : Scenario) (all : List Placed) : Option String :=
       let k := c.topologyKey
       if k == "kubernetes.io/hostname" then
         -- hostname: every new node is a fresh domain, the global minimum is 0
-        let here := (all.filter (fun b => samePlace a b && selMatches c.matchLabels b.pod && (carries b c || !b.isNew))).length
-        let before := (all.filter (fun b => !b.isNew && samePlace a b && selMatches c.matchLabels b.pod)).length
+        let here := (all.filter (fun b => samePlace a b && spreadMatches a.pod c b.pod && (carries a.pod b c || !b.isNew))).length
+        let before := (all.filter (fun b => !b.isNew && samePlace a b && spreadMatches a.pod c b.pod)).length
         if here > max c.maxSkew (before + 1) && here > c.maxSkew then
           some s!"spread: {here} matching pods on the node of {a.pod.name} exceed maxSkew {c.maxSkew} on hostname"
         else none
@@ -226,7 +274,7 @@ def spreadOK (s : Scenario) (all : List Placed) : Option String :=
           | .claim _ cl =>
             (!honor || (domains s b k).all (fun d => elig.contains d)) && (!honorT || (untolerated a.pod.tolerations cl.taints).isNone)
         let count (dd : String) (onlyOld : Bool) : Nat :=
-          (all.filter (fun b => (!onlyOld || !b.isNew) && selMatches c.matchLabels b.pod && domains s b k == [dd] && nodeCounts b)).length
+          (all.filter (fun b => (!onlyOld || !b.isNew) && spreadMatches a.pod c b.pod && domains s b k == [dd] && nodeCounts b)).length
         let minNow := match elig.map (fun dd => count dd false) with
           | [] => 0
           | x :: xs => xs.foldl min x
@@ -248,10 +296,10 @@ def spreadOK (s : Scenario) (all : List Placed) : Option String :=
         -- Kubernetes counts every pod the selector matches, but only constrains the pods that carry the constraint: matching
         -- pods that this pass put into `d` WITHOUT the same constraint, or with another node selector / affinity (their own skew
         -- is computed over other eligible domains), may have arrived after `a` and are slack
-        let sibling (b : Placed) : Bool := carries b c && toString (repr b.pod.nodeSelector) == toString (repr a.pod.nodeSelector) &&
+        let sibling (b : Placed) : Bool := carries a.pod b c && toString (repr b.pod.nodeSelector) == toString (repr a.pod.nodeSelector) &&
           toString (repr b.pod.required) == toString (repr a.pod.required) &&
           toString (repr b.pod.tolerations) == toString (repr a.pod.tolerations)
-        let slack := (all.filter (fun b => b.isNew && selMatches c.matchLabels b.pod && !sibling b && domains s b k == [d])).length
+        let slack := (all.filter (fun b => b.isNew && spreadMatches a.pod c b.pod && !sibling b && domains s b k == [d])).length
         if skewNow > max c.maxSkew skewOld + slack then
           -- CLASSIFIES (never excuses): the pod has several OR-ed required node-affinity terms. Karpenter schedules it as if it
           -- had only the term it is currently trying (the first, or a later one after relaxation) and computes the global
